@@ -252,12 +252,24 @@ def sched_histories(tier, rng_):
         for _ in range(rng_.randint(2, 7)):
             ops.append({"op": rng_.choice(["add", "add", "remove", "enable", "disable", "disable"]), "job": rng_.choice(jobs), "due": rng_.random() < 0.6})
         hists.append({"id": hid, "ops": ops})
-    if tier == "thorough":
-        # across a real minute boundary: who fires at the tick
-        hid += 1
-        hists.append({"id": hid, "ops": [{"op": "add", "job": "j1", "due": True}, {"op": "add", "job": "j2", "due": True}, {"op": "disable", "job": "j2", "due": True},
-                                         {"op": "enable", "job": "j2", "due": True}, {"op": "tick", "job": "", "due": False},
-                                         {"op": "disable", "job": "j1", "due": True}, {"op": "tick", "job": "", "due": False}]})
+    return hists
+
+
+def timed_histories():
+    """across real minute boundaries: who fires at the tick (each history runs in its own node process, in parallel)"""
+    T = {"op": "tick", "job": "", "due": False}
+    def A(j, due=True): return {"op": "add", "job": j, "due": due}
+    def D(j): return {"op": "disable", "job": j, "due": True}
+    def E(j): return {"op": "enable", "job": j, "due": True}
+    def R(j): return {"op": "remove", "job": j, "due": True}
+    return [
+        {"id": 900001, "ops": [A("j1"), A("j2"), D("j2"), E("j2"), T, D("j1"), T]},          # disable+enable within a minute: once
+        {"id": 900002, "ops": [A("j1"), D("j1"), T, E("j1"), T]},                              # disabled over a tick, enabled again: fires at the next one
+        {"id": 900003, "ops": [A("j1"), A("j2", False), R("j1"), A("j1"), T, R("j2"), A("j2"), T]},
+        {"id": 900004, "ops": [T, A("j1"), D("j1"), E("j1"), D("j1"), E("j1"), T, R("j1"), T]},
+    ]
+
+
     return hists
 
 
@@ -265,10 +277,25 @@ def run_sched(tier, w, vh, rng_):
     hists = sched_histories(tier, rng_)
     json.dump({"hists": hists}, open(os.path.join(w, "sched_in.json"), "w"))
     trace = os.path.join(w, "sched_trace.ndjson")
-    rc, so, se, to = vlib.run_vh(vh, ["cronsched", "-in", os.path.join(w, "sched_in.json"), "-out", trace, "-node", "vhcrs%d@localhost" % os.getpid()], timeout=600)
-    if rc != 0 or to:
-        raise vlib.Infra("cronsched harness failed rc=%s: %s" % (rc, (se or so)[-1500:]))
-    hs = json.loads(so.strip().splitlines()[-1])
+    timed = timed_histories() if tier == "thorough" else []
+    def one_timed(h):
+        fin = os.path.join(w, "sched_in_%d.json" % h["id"]); fout = os.path.join(w, "sched_trace_%d.ndjson" % h["id"])
+        json.dump({"hists": [h]}, open(fin, "w"))
+        rc, so, se, to = vlib.run_vh(vh, ["cronsched", "-in", fin, "-out", fout, "-node", "vhcrt%d_%d@localhost" % (os.getpid(), h["id"])], timeout=900)
+        if rc != 0 or to:
+            raise vlib.Infra("cronsched (timed) failed rc=%s: %s" % (rc, (se or so)[-1500:]))
+        return fout
+    with cf.ThreadPoolExecutor(max_workers=max(1, len(timed) + 1)) as ex:
+        tf = [ex.submit(one_timed, h) for h in timed]
+        rc, so, se, to = vlib.run_vh(vh, ["cronsched", "-in", os.path.join(w, "sched_in.json"), "-out", trace, "-node", "vhcrs%d@localhost" % os.getpid()], timeout=600)
+        if rc != 0 or to:
+            raise vlib.Infra("cronsched harness failed rc=%s: %s" % (rc, (se or so)[-1500:]))
+        hs = json.loads(so.strip().splitlines()[-1])
+        with open(trace, "a") as f:
+            for t in tf:
+                f.write(open(t.result()).read())
+        hs["timed_histories"] = len(timed)
+    hists = hists + timed
     fam.write_mc(w, "MC_CronSchedT", "CronSched_Trace", {}, {"Jobs": '{"j1", "j2"}', "MaxTick": "5", "MaxOps": "1000000", "Fix_NextInit": "TRUE", "Fix_Respool": "TRUE",
                                                              "TraceFile": '"sched_trace.ndjson"', "Checks": '{"Result", "NextSet", "SpoolMatches", "FiredMatches"}'},
                  spec="TraceSpec", constraint="HWM", postcondition="TraceAccepted")
